@@ -2635,6 +2635,9 @@ func (p *Posix) PutObject(ctx context.Context, po s3response.PutObjectInput) (s3
 	if err != nil {
 		return s3response.PutObjectOutput{}, err
 	}
+	if po.Tags != nil {
+		tags = po.Tags
+	}
 
 	name := filepath.Join(*po.Bucket, *po.Key)
 
@@ -4111,24 +4114,27 @@ func (p *Posix) CopyObject(ctx context.Context, input s3response.CopyObjectInput
 			putObjectInput.Tagging = input.Tagging
 		}
 
-		res, err := p.PutObject(ctx, putObjectInput)
-		if err != nil {
-			return nil, err
-		}
-
-		// copy the source object tagging after the destination object
-		// creation, if tagging directive is "COPY"
+		// pass the source object tagging to PutObject, if tagging directive
+		// is "COPY": like every other attribute the tags go onto the temp
+		// file, so that the destination is never published without them
+		// and they cannot land on an object another request put there
 		if input.TaggingDirective == types.TaggingDirectiveCopy {
-			tagging, err := p.meta.RetrieveAttribute(nil, srcBucket, srcObject, tagHdr)
+			tagging, err := p.meta.RetrieveAttribute(f, srcBucket, srcObject, tagHdr)
 			if err != nil && !errors.Is(err, meta.ErrNoSuchKey) {
 				return nil, fmt.Errorf("get source object tagging: %w", err)
 			}
 			if err == nil {
-				err := p.meta.StoreAttribute(nil, dstBucket, dstObject, tagHdr, tagging)
-				if err != nil {
-					return nil, fmt.Errorf("set destination object tagging: %w", err)
+				srcTags := make(map[string]string)
+				if err := json.Unmarshal(tagging, &srcTags); err != nil {
+					return nil, fmt.Errorf("parse source object tagging: %w", err)
 				}
+				putObjectInput.Tags = srcTags
 			}
+		}
+
+		res, err := p.PutObject(ctx, putObjectInput)
+		if err != nil {
+			return nil, err
 		}
 
 		etag = res.ETag
